@@ -176,29 +176,18 @@ Definition float_validate_one (ct : Z * Z) (v : pyval) : option exn :=
        | _ => Some ETypeError
        end.
 
-(* Python max(seq) / min(seq): the first element sticks while comparisons are False (NaN) *)
-Definition pymax (x : pyval) (l : list pyval) : pyval :=
-  fold_left (fun m y => if xgt (xnum_of y) (xnum_of m) then y else m) l x.
-Definition pymin (x : pyval) (l : list pyval) : pyval :=
-  fold_left (fun m y => if xlt (xnum_of y) (xnum_of m) then y else m) l x.
-
-(* FloatValidatorBase.validate_many : only max and min are converted and tested *)
-Definition float_validate_many (ct : Z * Z) (items : list pyval) : option exn :=
-  if negb (forallb is_num items) then Some ETypeError       (* a comparison or the conversion raises TypeError *)
-  else match items with
-       | [] => Some EValueError
-       | x :: r =>
-           match float_isinf_conv (snd ct) (pymax x r) with
-           | inl e => Some e
-           | inr true => Some EValueError
-           | inr false =>
-               match float_isinf_conv (snd ct) (pymin x r) with
-               | inl e => Some e
-               | inr true => Some EValueError
-               | inr false => None
-               end
-           end
-       end.
+(* FloatValidatorBase.validate_many : every element is converted and tested, in order
+   (self._ctype(v) raises TypeError for a non-number, OverflowError for a huge int) *)
+Fixpoint float_validate_many (ct : Z * Z) (items : list pyval) : option exn :=
+  match items with
+  | [] => None
+  | x :: r =>
+      match float_isinf_conv (snd ct) x with
+      | inl e => Some e
+      | inr true => Some EValueError
+      | inr false => float_validate_many ct r
+      end
+  end.
 
 (* Byte.validate_one *)
 Definition byte_validate_one (r : irec) (v : pyval) : option exn :=
@@ -463,7 +452,11 @@ Definition set (enabled : bool) (f : field) (k : key) (m : list Z) (v : pyval) :
           | Some x => (Some x, m)
           | None => match encode_ascii v with
                     | inl e => (Some e, m)
-                    | inr cs => ok_or m off (s_set n cs)
+                    | inr cs =>
+                        (* a shorter value: the char array is cleared first (no stale tail after the NUL) *)
+                        let m0 := if (1 <? n)%nat && (length cs <? n)%nat
+                                  then splice m off (repeat 0 n) else m in
+                        ok_or m0 off (s_set n cs)
                     end
           end
       | _ => (Some ETypeError, m)
